@@ -397,11 +397,79 @@ def reused_difference(chain, langs, t1, t2):
         return (k, show(b) if b is not None else None, show(a) if a is not None else None)
     return None
 
+# ---- wave 7: chains at DOCUMENT level with DFXP hops (request 806 = run_doc, theorem C08_chain_doc_text_four_formats) ----
+DOC_WORDS = ["hello", "world", "l'a", "x", "42", "\u00e9\u4e2d", "a\u00a0b", "{1}{2}", "w;", "R-D", "1.5", "NOTE"]
+DOC_MARKUP = ["a & b", "<i>x</i>", "1 < 2 > 0", "&amp;", "x]]>y"]
+
+
+def caps_lines(cs, lang):
+    out = []
+    for c in cs.get_captions(lang):
+        lines, cur = [], []
+        for n in c.nodes:
+            if n.type_ == CaptionNode.BREAK:
+                lines.append("".join(cur))
+                cur = []
+            elif n.type_ == CaptionNode.TEXT:
+                cur.append(n.content or "")
+        lines.append("".join(cur))
+        out.append([as_int(c.start), as_int(c.end), lines])
+    return out
+
+
+def stream_doc_chains(ctx, res):
+    """chains over SRT, WebVTT, DFXP and MicroDVD that contain a DFXP hop, on one language of sorted cues (each at least
+    40 ms long) whose text is 1-3 clean lines: the REAL chain (fresh objects) against the model's document-level chain
+    run_doc (every hop prints the whole document and reads it back with the reader model - for DFXP the string-level
+    XML reader): times AND text lines after the chain must be equal (disagreement otherwise)."""
+    rng = ctx.rng
+    dist = res["distribution"]
+    jobs = []
+    for _ in range(ctx.n(80, 2000)):
+        chain = [rng.choice([0, 1, 2, 4]) for _ in range(rng.randint(1, 5))]
+        chain[rng.randrange(len(chain))] = 2
+        t = rng.choice([0, 1, 999, 40000, 59999999, 3599999000, rng.randrange(0, 80000 * 10**6)])
+        caps = []
+        for _ in range(rng.choice([1, 2, 3, 5])):
+            a = t + rng.choice([0, 1, 39999, 40000, 123456, 10**7])
+            b = a + rng.choice([40000, 40001, 79999, 10**6, 59999999])
+            t = b
+            pool = DOC_WORDS if 1 in chain else DOC_WORDS + DOC_MARKUP
+            lines = [" ".join(rng.choice(pool) for _ in range(rng.choice([1, 2, 3]))) for _ in range(rng.choice([1, 1, 2, 3]))]
+            if 0 in chain:      # SRT: a line that is only digits would be read as a cue number
+                lines = [l if not l.isdigit() else l + " x" for l in lines]
+            caps.append([a, b, lines])
+        if caps[-1][1] >= 86396000000 or caps[0][1] < 40000:
+            continue
+        jobs.append((chain, caps))
+    outs = oracle_batch([(806, [chain, caps]) for (chain, caps) in jobs])
+    ncmp = 0
+    for (chain, caps), o in zip(jobs, outs):
+        res["evaluations"] += 1
+        model = r_result(o)
+        cs = build([([(a, b) for (a, b, _) in caps], [ls for (_, _, ls) in caps])])
+        _, final = run_chain(chain, cs)
+        real = impl.call(lambda: caps_lines(final, "en-US")) if final is not None else Err(0)
+        mv = [[a, b, list(ls)] for (a, b, ls) in model.v] if isinstance(model, Ok) else None
+        ncmp += 1
+        # compared at the level the statement fixes: times exactly (the model floors like the formats do), the text of
+        # every caption whitespace-normalised as a whole
+        def level(caps_):
+            return [[a, b, norm_line("\n".join(ls))] for (a, b, ls) in caps_]
+        if isinstance(real, Ok) and mv is not None and real.v != mv and level(real.v) == level(mv):
+            bump(dist, "document_level_chains_equal_only_after_whitespace_normalisation")
+        if not (isinstance(real, Ok) and mv is not None and level(real.v) == level(mv)):
+            res["disagreements"].append({"what": "document-level chain with DFXP hops: model run_doc differs from the real chain",
+                                         "chain": [FMT[f] for f in chain], "input": caps, "model": mv if mv is not None else show(model),
+                                         "impl": real.v if isinstance(real, Ok) else repr(real)})
+        res["nontrivial"].add(("doc-chain", tuple(chain), tuple((a, b) for (a, b, _) in caps)))
+    dist["document_level_chains_with_dfxp_hops_compared"] = ncmp
+
 
 def run(ctx):
     rng = ctx.rng
     res = {"evaluations": 0, "nontrivial": set(), "violations": [], "disagreements": [], "distribution": {},
-           "streams": 3, "notes": [], "samples": []}
+           "streams": 4, "notes": [], "samples": []}
     dist = res["distribution"]
     NONINT[0] = 0
     jobs = []
@@ -534,6 +602,7 @@ def run(ctx):
     dist.setdefault("hops_with_other_precision_than_model", 0)
     dist["non_integer_times_observed_and_floored"] = NONINT[0]
     stream_shapes(ctx, res)
+    stream_doc_chains(ctx, res)
     # the string-level MicroDVD writer model (request 803) against the real writer, on the generated single-language sets
     # whose captions are lines separated by single breaks (a difference is a correspondence disagreement)
     mw, skipped = [], 0
@@ -637,6 +706,10 @@ def run(ctx):
     res["clauses"] = {
         "theorem": ["projection algebra (spec-internal): pi_F idempotent, two hops = coarser resolution, every chain = "
                     "closed form, chain twice = once",
+                    "DFXP hop at DOCUMENT level (wave 7): the whole written document read back by the string-level reader model "
+                    "returns every caption floored to the ms with its text lines (C08_dfxp_roundtrip_string); every chain "
+                    "of SRT / MicroDVD / WebVTT / DFXP document hops = closed-form times and unchanged text lines "
+                    "(C08_chain_doc_text_four_formats)",
                     "token level: writer model then reader model = floor to the format's unit (SRT, WebVTT, DFXP, MicroDVD)",
                     "cue-list level incl. SRT merge loop and SAMI sync rule + back-filling: a model hop is pi_F on the "
                     "domain; a chain of model hops is the closed form; a SECOND chain of model hops returns the same "
